@@ -507,11 +507,17 @@ pub(crate) struct WritersHandle {
 impl WritersHandle {
     fn set_new_spec(&self, new_spec: LogSpecification) -> Result<(), FlexiLoggerError> {
         let max_level = new_spec.max_level();
+        #[cfg(flexi_logger_verif)]
+        crate::verif_hooks::sched_point("spec_enter");
         self.spec
             .write()
             .map_err(|_| FlexiLoggerError::Poison)?
             .update_from(new_spec);
+        #[cfg(flexi_logger_verif)]
+        crate::verif_hooks::sched_point("spec_updated");
         self.reconfigure(max_level);
+        #[cfg(flexi_logger_verif)]
+        crate::verif_hooks::sched_point("spec_done");
         Ok(())
     }
 
